@@ -4,7 +4,7 @@ use parking_lot::RwLock;
 use super::RuntimeResult;
 use crate::{
     io::{
-        logger::{Alter, Begin, Commit, Create, Delete, DropOp, End, Insert, Operation, Update},
+        logger::{Abort, Alter, Begin, Commit, Create, Delete, DropOp, End, Insert, Operation, Update},
         pager::{BtreeBuilder, SharedPager},
     },
     multithreading::coordinator::{Snapshot, TransactionHandle},
@@ -125,7 +125,7 @@ impl TransactionLogger {
     }
 
     pub(crate) fn log_abort(&self) -> RuntimeResult<()> {
-        self.log_operation(Commit)?;
+        self.log_operation(Abort)?;
         Ok(())
     }
 
@@ -281,6 +281,11 @@ impl TransactionContext {
         let pager = self.pager().read();
         BtreeBuilder::new(pager.min_keys_per_page(), pager.num_siblings_per_side())
             .with_pager(self.pager().clone())
+    }
+
+    /// Whether the transaction has neither committed nor aborted yet.
+    pub(crate) fn is_open(&self) -> bool {
+        self.handle.read().can_commit()
     }
 
     /// Commits the transaction: log commit, commit handle, end.
